@@ -212,6 +212,13 @@ func (vm *VirtualMachine) runCodeInternal(ctx context.Context, codeToRun *compil
 	startIP := 0
 	if !resetState {
 		startIP = vm.ip
+		// Run resumes the main code where the previous run stopped (the REPL
+		// appends to it). The result of that run has been handed to the
+		// caller already: drop it, and whatever a failed run left behind, so
+		// that the stack does not grow by one value with every run.
+		for vm.sp >= 0 {
+			vm.pop()
+		}
 	}
 	vm.activateCode(0, startIP, codeObj)
 
